@@ -139,7 +139,9 @@ class Portfolio(IncrementalTrackingSolver):
         # instead of in one shot!)
         self._close_existing()
 
-        formula = self.environment.formula_manager.And(self.assertions)
+        # The assumptions are solved together with the assertions
+        formula = self.environment.formula_manager.And(self.assertions +
+                                                       list(assumptions or []))
         _debug("Creating Queue and Pipe")
         signaling_queue: Queue = Queue()
         child_ctrl_pipe, my_ctrl_pipe = Pipe()
